@@ -28,9 +28,9 @@ ASSUMPTIONS = [
     "reachability (every stored id is returned for some key) is judged only where a uniform sampler would miss "
     "an id with probability < 1e-9 per case; it comes from the docstring 'uniformly sampled', not from the "
     "property text, and has its own keys (*-never-sampled)",
-    "the near-2^31 class sets `position` by eqx.tree_at on a buffer that real add() calls filled in the slot "
-    "layout a ring has after that many insertions (2^31 real insertions are not affordable); it is reported "
-    "under its own key and marked state_injected",
+    "histories longer than 2^31 insertions are produced by real add() calls (jitted fori_loop, labels "
+    "((k-1) mod 2^20)+1 so that they stay exact in float32); violations there carry the prefix "
+    "past-2^31-insertions-; `position` itself is only compared with the insertion count while it fits int32",
     "DQN leg: a slot counts as written iff its observation differs from the filler 0.5 (one-hot observations "
     "never equal 0.5)",
 ]
@@ -254,8 +254,12 @@ def _judge_position(ctx, pre, buf, n, C, info):
         ctx.violation(pre + "current-size-not-min-n-capacity", dict(info, got=cur, want=min(n, C)))
 
 
-def _judge_batches(ctx, pre, batch, K, b, stored, info):
-    """`batch`: buffer whose leaves are (K, b, ...) (K keys). Returns list of per-key id sets, or None."""
+def _judge_batches(ctx, pre, batch, K, b, stored, info, present=None):
+    """`batch`: buffer whose leaves are (K, b, ...) (K keys). Returns list of per-key id sets, or None.
+    `present`: ids actually decoded from the buffer, given only when the contents were already reported wrong,
+    so that the sampler is still judged (against what is there) without repeating the contents finding."""
+    if present is not None:
+        stored = present
     try:
         names, ids, row = _decode(_flat_rows(batch, 2), K * b)
     except _Shape as e:
@@ -462,7 +466,7 @@ def u_sample(ctx):
     from jax import random as jr
 
     cfgs = _configs()
-    Cmax = ctx.n(6, 10)
+    Cmax = ctx.n(5, 10)
     K = ctx.n(24, 64)
     kbase = 0
     for C in range(1, Cmax + 1):
@@ -543,7 +547,7 @@ def u_sample_large(ctx):
 
     cfgs = _configs()
     rng = ctx.rng
-    N = ctx.n(14, 90)
+    N = ctx.n(10, 90)
     K = ctx.n(16, 48)
     for i in range(N):
         cfg = cfgs[i % len(cfgs)]
@@ -721,18 +725,18 @@ def _vector(ctx, how, N, k0=0):
                 if nontrivial:
                     ctx.monitor("vec_batches_from_mixed_levels")
                 _judge_batches(ctx, pre, _add_lead(_np(bt)), 1, b, stored, info)
-    ctx.require("contents_oracle_evaluations", 20)
-    ctx.require("vec_batches_from_mixed_levels", 100)
+    ctx.require("contents_oracle_evaluations", 8)
+    ctx.require("vec_batches_from_mixed_levels", 50)
     ctx.require("full_draw_batches_equal_stored_set", 10)
 
 
 def u_vector(ctx):
-    _vector(ctx, "cond", ctx.n(14, 80))
+    _vector(ctx, "cond", ctx.n(9, 80))
 
 
 def u_vector_where(ctx):
-    _vector(ctx, "where", ctx.n(10, 50))
-    _vector(ctx, "loop", ctx.n(5, 20), k0=500)
+    _vector(ctx, "where", ctx.n(6, 50))
+    _vector(ctx, "loop", ctx.n(3, 20), k0=500)
 
 
 # ------------------------------------------------------------------------------------------ unit: algo
@@ -802,10 +806,14 @@ def u_algo(ctx):
     runs = ctx.n(2, 8)
     for i in range(runs):
         env = mkenv()
-        C = int(rng.integers(4, 9))
-        ls = int(rng.integers(2, C))
-        bsz = int(rng.integers(1, ls + 1))
         steps = int(rng.integers(2, 5))
+        if i % 2 == 0:  # first training batches drawn from a partially filled buffer, wraps later
+            ls = int(rng.integers(2, 4))
+            C = ls + 2 * steps + 1
+        else:
+            C = int(rng.integers(4, 9))
+            ls = int(rng.integers(2, C))
+        bsz = int(rng.integers(1, ls + 1))
         iters = ctx.n(3, 4)
         algo = DQN(buffer_size=C, learning_starts=ls, num_envs=1, num_steps=steps, batch_size=bsz,
                    target_update_interval=2)
@@ -936,93 +944,129 @@ def u_algo(ctx):
 
 
 # ------------------------------------------------------------------------------------------ unit: longrun
+LABELS = 2 ** 20  # long histories label insertion k with ((k-1) mod 2^20) + 1, exact in float32 with the tags
+
+
+def _label(k):
+    return (k - 1) % LABELS + 1
+
+
 def u_longrun(ctx):
+    """genuinely long histories by real add() calls in a jitted fori_loop (about 10-30 ns per add):
+    (a) wrap 10^5..10^7 times; (b) insertion count crossing 2^31."""
     import equinox as eqx
-    import jax
     import jax.numpy as jnp
     from jax import lax
+    from jax import random as jr
 
     cfgs = _configs()
     rng = ctx.rng
-    # (a) genuinely long histories: wrap thousands of times, judged at chunk boundaries
-    total = ctx.n(150_000, 2_000_000)
-    for i, C in enumerate([3, 7, 64][: ctx.n(2, 3)]):
-        cfg = cfgs[[0, 1, 2][i]]
-        info0 = {"config": cfg["name"], "capacity": C, "mode": "fori-jit"}
 
+    def mkrun(cfg):
         @eqx.filter_jit
-        def run(buf, start, count, cfg=cfg):
-            return lax.fori_loop(0, count, lambda k, b: _add_id(cfg, b, start + k), buf)
+        def run(buf, l0, count):
+            return lax.fori_loop(0, count, lambda j, b: _add_id(cfg, b, (l0 + j) % LABELS + 1), buf)
 
-        n = 0
-        chunks = 6
+        return run
+
+    def checkpoint(pre, cfg, C, buf, n, info0, cls, position=True, reach=False):
+        stored = set(_label(k) for k in range(max(1, n - C + 1), n + 1))
+        info = dict(info0, insertions=n, want_labels=sorted(stored))
+        names, ids, row = _decode(_np(buf), C)
+        ctx.case(dict(info0, insertions=n), nontrivial=True, cls=f"contents/{cls}")
+        ok = _judge_contents(ctx, pre, names, ids, row, C, stored, info)
+        if position:
+            _judge_position(ctx, pre, buf, n, C, info)
+        present = None if ok else set(int(x) for x in row[row > 0])
+        m = len(stored) if ok else len(present)
+        for b in sorted(set([m, 1, max(1, m // 2)])):
+            if b < 1:
+                continue
+            bi = dict(info0, insertions=n, batch=b)
+            try:
+                bt = _np(_lerax(buf.sample, b, key=ctx.key(n % 100_003 * 10 + b)))
+            except _LeraxRaised as e:
+                ctx.violation(pre + "sample-raises", dict(bi, error=str(e)))
+                continue
+            ctx.case(bi, nontrivial=True, cls=f"sample/eager/{cls}")
+            _judge_batches(ctx, pre, _add_lead(bt), 1, b, stored, bi, present=present)
+        if reach and m >= 2:
+            b, K = max(1, m // 2), 64
+            bi = dict(info0, insertions=n, batch=b, mode="jit+vmap")
+            try:
+                out = _np(_lerax(_sample_fns(b)[1], buf, jr.split(ctx.key(n % 100_003 + 5), K)))
+            except _LeraxRaised as e:
+                ctx.violation(pre + "sample-raises", dict(bi, error=str(e)))
+                return ok
+            for k in range(K):
+                ctx.case(dict(bi, key=k), nontrivial=True, cls=f"sample/jit+vmap/{cls}")
+            seen = _judge_batches(ctx, pre, out, K, b, stored, bi, present=present)
+            if seen is not None:
+                _judge_reach(ctx, pre, seen, b, stored if ok else present, bi)
+        return ok
+
+    # (a) wrap very many times, judged at chunk boundaries
+    total = ctx.n(20_000_000, 300_000_000)
+    for i, C in enumerate([3, 64, 7, 33, 10][: ctx.n(2, 5)]):
+        cfg = cfgs[i % len(cfgs)]
+        info0 = {"config": cfg["name"], "capacity": C, "mode": "fori-jit"}
+        run, n, chunks = mkrun(cfg), 0, 6
         try:
             buf = _lerax(_mkbuf, cfg, C)
             for ch in range(chunks):
                 cnt = int(rng.integers(total // (2 * chunks), total // chunks))
-                buf = _lerax(run, buf, jnp.asarray(n + 1, jnp.int32), jnp.asarray(cnt, jnp.int32))
+                buf = _lerax(run, buf, jnp.asarray((n + 1 - 1) % LABELS, jnp.int32), jnp.asarray(cnt, jnp.int32))
                 n += cnt
-                stored = set(range(n - C + 1, n + 1))
-                info = dict(info0, n=n)
-                names, ids, row = _decode(_np(buf), C)
-                ctx.case(info, nontrivial=True, cls="contents/fori-jit/wrapped-many-times")
                 ctx.monitor("long_history_checkpoints")
-                _judge_contents(ctx, "", names, ids, row, C, stored, info)
-                _judge_position(ctx, "", buf, n, C, info)
-                for b in sorted(set([C, 1, max(1, C // 2)])):
-                    bt = _np(_lerax(buf.sample, b, key=ctx.key(ch * 10 + b)))
-                    ctx.case(dict(info, batch=b), nontrivial=True, cls="sample/eager/wrapped-many-times")
-                    _judge_batches(ctx, "", _add_lead(bt), 1, b, stored, dict(info, batch=b))
+                checkpoint("", cfg, C, buf, n, info0, "fori-jit/wrapped-many-times")
         except _Shape as e:
             ctx.violation("buffer-leaf-shape", dict(info0, error=str(e)))
         except _LeraxRaised as e:
-            ctx.violation("add-raises", dict(info0, n=n, error=str(e)))
+            ctx.violation("add-raises", dict(info0, insertions=n, error=str(e)))
         ctx.notes[f"long_history_C{C}"] = n
     ctx.require("long_history_checkpoints", 6)
 
-    # (b) insertion count crossing 2^31 (int32 position). State injected: see ASSUMPTIONS.
-    pre = "int32-position-"
-    for i in range(ctx.n(4, 12)):
-        cfg = cfgs[i % len(cfgs)]
-        C = [3, 5, 4, 7, 6, 8, 9, 2][i % 8]
-        P0 = 2 ** 31 - 1 - int(rng.integers(0, 3))
-        info0 = {"config": cfg["name"], "capacity": C, "position_injected": P0, "state_injected": True}
+    # (b) histories longer than 2^31 insertions: all by real add() calls
+    pre = "past-2^31-insertions-"
+    LIM = 2 ** 31
+    plan = [(0, 3), (1, 5), (4, 7), (3, 4), (2, 6)][: ctx.n(1, 5)]
+    for ci, C in plan:
+        cfg = cfgs[ci]
+        info0 = {"config": cfg["name"], "capacity": C, "mode": "fori-jit then jit-add"}
+        run = mkrun(cfg)
+        addj = eqx.filter_jit(lambda b, g, cfg=cfg: _add_id(cfg, b, g))
+        n = 0
         try:
             buf = _lerax(_mkbuf, cfg, C)
-            # slot t must hold the label of the insertion that a ring would have there after P0 insertions
-            for t in range(C):
-                label = ((t - (P0 - C)) % C) + 1
-                buf = _lerax(_add_id, cfg, buf, label)
-            names, ids, row = _decode(_np(buf), C)
-            if set(int(x) for x in row) != set(range(1, C + 1)):
-                ctx.inconc("int32 class: could not prepare the full buffer")
-                continue
-            buf = eqx.tree_at(lambda b: b.position, buf, jnp.asarray(P0, buf.position.dtype))
-            ctx.notes["position_dtype"] = str(buf.position.dtype)
-            extra = 2 * C + 2
-            for j in range(1, extra + 1):
-                buf = _lerax(_add_id, cfg, buf, C + j)
-                n_true = P0 + j
-                stored = set(range(j + 1, C + j + 1))
-                info = dict(info0, insertions=n_true, labels_expected=sorted(stored))
-                names, ids, row = _decode(_np(buf), C)
-                ctx.case(info, nontrivial=True, cls="contents/eager/position-near-2^31")
-                ctx.monitor("int32_position_cases")
-                ok = _judge_contents(ctx, pre, names, ids, row, C, stored, info)
-                for b in (C, 1):
-                    try:
-                        bt = _np(_lerax(buf.sample, b, key=ctx.key(i * 100 + j * 2 + b)))
-                    except _LeraxRaised as e:
-                        ctx.violation(pre + "sample-raises", dict(info, batch=b, error=str(e)))
-                        continue
-                    ctx.case(dict(info, batch=b), nontrivial=True, cls="sample/eager/position-near-2^31")
-                    if ok:
-                        _judge_batches(ctx, pre, _add_lead(bt), 1, b, stored, dict(info, batch=b))
+            target = LIM - 2 - int(rng.integers(0, 3))
+            while n < target:
+                cnt = min(2 ** 29 + int(rng.integers(0, 1000)), target - n)
+                buf = _lerax(run, buf, jnp.asarray(n % LABELS, jnp.int32), jnp.asarray(cnt, jnp.int32))
+                n += cnt
+                ctx.monitor("near_2^31_checkpoints_before")
+                checkpoint("", cfg, C, buf, n, info0, "fori-jit/approaching-2^31")
+            # one add at a time across the boundary
+            for _ in range(3 * C + 6):
+                n += 1
+                buf = _lerax(addj, buf, jnp.asarray(_label(n), jnp.int32))
+                if n >= LIM:
+                    ctx.monitor("cases_past_2^31_insertions")
+                checkpoint(pre if n >= LIM else "", cfg, C, buf, n, info0,
+                           "jit-add/past-2^31" if n >= LIM else "jit-add/approaching-2^31", position=n < LIM,
+                           reach=True)
+            # and a further compiled stretch
+            cnt = int(rng.integers(1000, 5000))
+            buf = _lerax(run, buf, jnp.asarray(n % LABELS, jnp.int32), jnp.asarray(cnt, jnp.int32))
+            n += cnt
+            ctx.monitor("cases_past_2^31_insertions")
+            checkpoint(pre, cfg, C, buf, n, info0, "fori-jit/past-2^31", position=False, reach=True)
         except _Shape as e:
             ctx.violation(pre + "buffer-leaf-shape", dict(info0, error=str(e)))
         except _LeraxRaised as e:
-            ctx.violation(pre + "add-raises", dict(info0, error=str(e)))
-    ctx.require("int32_position_cases", 8)
+            ctx.violation((pre if n >= LIM else "") + "add-raises", dict(info0, insertions=n, error=str(e)))
+        ctx.notes[f"history_past_2^31_{cfg['name']}_C{C}"] = n
+        ctx.notes["position_dtype"] = str(buf.position.dtype)
+    ctx.require("cases_past_2^31_insertions", 8)
 
 
 def run_unit(name, ctx):
